@@ -510,25 +510,25 @@ func runC19(c *Ctx) int {
 	}
 	sort.Strings(fpl)
 	cov := map[string]any{
-		"evaluations":         total + good,
-		"distinct_nontrivial": nontriv,
-		"rule": "bases = final files of generated histories (page sizes 1024/2048/4096, splits, overflow values, nested and inline buckets, freelist persisted; every 6th without a persisted list); decode.Mutants enumerates every eligible target of each class: free id removed (unreachable-unfreed), free id duplicated (double-free), first page / each overflow page of a reachable allocation added to the list (reachable-free), bucket root pointer redirected to another bucket's root with the orphaned tree put on the freelist (pure double reference), branch element redirected to its sibling's page (double reference), reachable page's flags set to each of 6 values with neither the branch nor the leaf bit (bad type), neighbouring keys of a leaf / a branch swapped, made equal, or the first byte raised (key order inside a page), first key lowered below / last key raised above the parent's separators, and last key of a last child raised above the bound a higher ancestor assigns (key order against parent and ancestors; bases have three-level trees). quick evaluates a seeded sample of 10 targets per class and base, thorough every target. A mutant counts only if D confirms its class on the mutated image. Oracles: Tx.Check (read-only open with preloaded freelist, array and hashmap backend) emits >= 1 error and `bbolt check` exits non-zero; on the unmutated files of all histories both report nothing / exit 0 with OK. Non-trivial fingerprint = (page size, class, pure, outcome per checker) with at least one checker reporting.",
-		"samples":                       samples,
-		"bases":                         bases,
-		"eligible_targets_per_class":    enumTot,
-		"mutants_evaluated_per_class":   eval,
-		"pure_single_corruption_mutants": pure,
-		"not_confirmed_by_D_per_class":  notc,
-		"reported_per_checker":          rep,
-		"first_error_kinds":             kinds,
-		"open_rejected":                 openRej,
-		"reported_then_died":            reportedThenDied,
+		"evaluations":                        total + good,
+		"distinct_nontrivial":                nontriv,
+		"rule":                               "bases = final files of generated histories (page sizes 1024/2048/4096, splits, overflow values, nested and inline buckets, freelist persisted; every 6th without a persisted list); decode.Mutants enumerates every eligible target of each class: free id removed (unreachable-unfreed), free id duplicated (double-free), first page / each overflow page of a reachable allocation added to the list (reachable-free), bucket root pointer redirected to another bucket's root with the orphaned tree put on the freelist (pure double reference), branch element redirected to its sibling's page (double reference), reachable page's flags set to each of 6 values with neither the branch nor the leaf bit (bad type), neighbouring keys of a leaf / a branch swapped, made equal, or the first byte raised (key order inside a page), first key lowered below / last key raised above the parent's separators, and last key of a last child raised above the bound a higher ancestor assigns (key order against parent and ancestors; bases have three-level trees). quick evaluates a seeded sample of 10 targets per class and base, thorough every target. A mutant counts only if D confirms its class on the mutated image. Oracles: Tx.Check (read-only open with preloaded freelist, array and hashmap backend) emits >= 1 error and `bbolt check` exits non-zero; on the unmutated files of all histories both report nothing / exit 0 with OK. Non-trivial fingerprint = (page size, class, pure, outcome per checker) with at least one checker reporting.",
+		"samples":                            samples,
+		"bases":                              bases,
+		"eligible_targets_per_class":         enumTot,
+		"mutants_evaluated_per_class":        eval,
+		"pure_single_corruption_mutants":     pure,
+		"not_confirmed_by_D_per_class":       notc,
+		"reported_per_checker":               rep,
+		"first_error_kinds":                  kinds,
+		"open_rejected":                      openRej,
+		"reported_then_died":                 reportedThenDied,
 		"died_with_diagnostic_before_report": diedWithDiagnostic,
-		"died_samples":                  diedSamples,
-		"good_file_checks":              good,
-		"outcome_fingerprints":          fpl,
-		"skipped":                       skipped,
-		"exhaustive":                    perClass == 0,
+		"died_samples":                       diedSamples,
+		"good_file_checks":                   good,
+		"outcome_fingerprints":               fpl,
+		"skipped":                            skipped,
+		"exhaustive":                         perClass == 0,
 	}
 	return c.Finish("fault_enumeration", cov, []string{
 		"D (harness/decode) decides whether a mutated image is corrupt in the listed class; mutants D does not confirm are not counted",
